@@ -383,7 +383,7 @@ func init() {
 	ps := &PropSpec{
 		ID: "C18", Level: "fault_enumeration",
 		Verdict: []string{"reject.", "lookupfault.", "collide.limit", "collide.refusal-trace", "iter.range-error", "panic"},
-		Rule: "at random points of mixed histories (all nesting depths; adversarial digesters with small collision limits): every kind of argument-invalid request (index = count+d on get/set/insert/remove, invalid ranges, absent keys on get/remove, collision-limit refusals, the undefined slab id on open/store/remove) must return the named error with the matching category and leave the pending write set and the bytes a commit would write unchanged; the history with the rejected steps removed must commit byte-identical registers; and for lookups (array get, map get/has, iteration) EVERY k-th ledger read, key comparison and hash-input call (k up to the count of a fault-free dry run of that lookup, first 40 for long iterations) is made to fail: the result must be an external error wrapping the injected one, again without trace. Fault enumeration for callback faults, exploration for arguments. Non-trivial = >= 3 rejected requests of >= 2 kinds and >= 1 enumerated lookup on a container of >= 3 slabs; distinct by trace hash",
+		Rule: "at random points of mixed histories (all nesting depths; adversarial digesters with small collision limits): every kind of argument-invalid request (index = count+d on get/set/insert/remove, invalid ranges, absent keys on get/remove, collision-limit refusals, the undefined slab id on open/store/remove) must return the named error with the matching category and leave the pending write set and the bytes a commit would write unchanged; the history with the rejected steps removed must commit byte-identical registers, and a divergence met later in the run must also be met by that history (otherwise it is the trace a rejected request left in memory); rejected index requests carry values whose Storable() has side effects (large strings, detached containers offered for re-attachment), identifiers that name no container (absent, non-root slabs) must be refused without panic; a third of the runs work on wide arrays (index slabs with dozens of children); and for lookups (array get, map get/has, iteration) EVERY k-th ledger read, key comparison and hash-input call (k up to the count of a fault-free dry run of that lookup, first 40 for long iterations) is made to fail: the result must be an external error wrapping the injected one, again without trace; the first dozen element-decoder calls are made to fail as well (an error, no trace); every lookup that met a fault is then repeated without fault through the same storage and handle and must be served. Fault enumeration for callback faults, exploration for arguments. Non-trivial = >= 3 rejected requests of >= 2 kinds and >= 1 enumerated lookup on a container of >= 3 slabs; distinct by trace hash",
 		ExpectedReach: []string{"reject.index", "reject.key", "reject.range", "reject.undefined-id", "c12.limit-refusal-predicted", "fault.callback.read", "fault.callback.cmp", "fault.callback.hip", "lookupfault.enumerated", "reject.twin-compared"},
 	}
 	hooks := stdHooks{
